@@ -2,7 +2,7 @@
 
 protocol: one JSON job per stdin line, one JSON reply per stdout line.
 job = {"scripts": [script spec, ...], "calls": [[op, engine name, arg...], ...], "lib": "plain"|"san"}
-ops: new(kind) setup(script index) iterate iterate_n(n) run(ms) sample progress complete output finalize
+ops: new(kind) setup(script index) iterate iterate_n(n) run(ms) sample progress complete output finalize simulate(script index, print_progress)
      sample0(script index, [seeds]) -> setup/output/finalize for each seed, returns first-sample arrays
 reply = {"results": [per call result], "error": None | "<type>: msg at call k"}
 """
@@ -69,6 +69,14 @@ def main():
                     elif op == "finalize":
                         engines[name].finalize()
                         r = None
+                    elif op == "simulate":
+                        # the package's own driver loop: simulate_script(script, engine, print_progress=call[3])
+                        import contextlib
+                        import io
+                        with contextlib.redirect_stdout(io.StringIO()):
+                            o = S.simulate_script(scripts[call[2]], engines[name], print_progress=bool(call[3]))
+                        r = {"t": [float(v) for v in o.t.value], "data": [float(v) for v in o.data.value],
+                             "tunit": o.t.units.sys["time"], "qunit": o.data.units.sys["quantity"], "seed": o.script.rng_seed}
                     elif op == "sample0":
                         r = []
                         n = None
